@@ -132,3 +132,78 @@ class ValueCompare(FnContract):
 
 VALUE_COMPARE = ValueCompare()
 BASE[VALUE_COMPARE.qual] = VALUE_COMPARE
+
+
+# ---------------------------------------------------------------------------------------------
+# value_parse_datetime (C16: text that is not a valid ISO date or datetime parses to null instead of failing)
+# ---------------------------------------------------------------------------------------------
+from pyvc.core import T, is_date, is_none                 # noqa: E402
+
+
+class ValueParseDatetime(FnContract):
+    qual = 'value.value_parse_datetime'
+    frame = 'pure'
+
+    def params(self, ip):
+        return [T(ip.ctx.fresh('text', Str))]
+
+    def post(self, K, out):
+        if out.kind == 'raise':
+            return [('C16.never-fails', False)]
+        v = K.ctx.to_term(out.value)
+        return [('C16.null-or-a-naive-datetime', z3.Or(is_none(v), z3.And(is_date(v), V.kind(v) == 1)))]
+
+
+VALUE_PARSE_DATETIME = ValueParseDatetime()
+
+PARSE_DATETIME_WITNESS = """
+from bare_script.value import value_parse_datetime
+bad = []
+for text in ['2024-02-30', '2024-13-01', '0000-01-01', '2024-13-01T00:00:00Z', '2024-02-30T10:00:00+00:00', '2024-01-01T25:00:00Z',
+             '2024-01-15', '2024-01-15T10:20:30Z', 'abc']:
+    try:
+        value_parse_datetime(text)
+    except Exception as exc:
+        bad.append({'text': text, 'observed': type(exc).__name__ + ': ' + str(exc)})
+result = {'violates': bool(bad), 'counterexamples': bad[:3]}
+"""
+ValueParseDatetime.native_witness = {'C16.never-fails': PARSE_DATETIME_WITNESS}
+
+
+# ---------------------------------------------------------------------------------------------
+# value_string verified against its own contract (number arms: C13)
+# ---------------------------------------------------------------------------------------------
+from pyvc.core import is_int, is_float, is_bool, VNone            # noqa: E402
+from pyvc.models_ops import STR_OF_INT, STR_OF_REAL                # noqa: E402
+
+
+class ValueStringImpl(FnContract):
+    """value_string on scalars: null/true/false literals, strings unchanged, ints through str(), floats through
+    str() followed by the clean-up substitution; never raises on scalars (within the int digit limit)"""
+    qual = 'value.value_string'
+    frame = 'pure'
+    inline = ('value.value_normalize_datetime',)
+
+    def pre(self, K):
+        v = K.term(0)
+        from pyvc.core import is_list, is_dict, is_date
+        lim = z3.IntVal(10 ** 4300)
+        return [('scalar', z3.Not(z3.Or(is_list(v), is_dict(v), is_date(v)))),
+                ('printable-int', z3.Implies(is_int(v), z3.And(V.i(v) < lim, V.i(v) > -lim)))]
+
+    def post(self, K, out):
+        if out.kind == 'raise':
+            return [('C13.never-fails-on-scalars', False)]
+        v = K.term(0)
+        r = K.ctx.to_term(out.value)
+        cleanup = ufun('RESUB_value.R_NUMBER_CLEANUP_', Str, Str)
+        return [('C13.result-is-text', is_str(r)),
+                ('C13.integers-print-through-str', z3.Implies(is_int(v), r == VStr(STR_OF_INT(V.i(v))))),
+                ('C13.floats-print-through-repr-and-the-zero-fraction-cleanup',
+                 z3.Implies(is_float(v), r == VStr(cleanup(STR_OF_REAL(V.r(v)))))),
+                ('strings-unchanged', z3.Implies(is_str(v), r == v)),
+                ('null', z3.Implies(v == VNone, r == VStr(z3.StringVal('null'))))]
+
+
+VALUE_STRING_IMPL = ValueStringImpl()
+VALUE_STRING_IMPL.callee_contracts = {'value.value_json': BASE['value.value_json']}
